@@ -10,6 +10,9 @@ import pl  # noqa: E402
 LEVEL = "exploration"
 
 
+GEO = [[], ["--PhaseSpaceSize", 10], ["--PhaseSpaceShiftX", 1], ["--PhaseSpaceShiftY", 3, "--PhaseSpaceShiftX", -2]]
+
+
 def process_level(res, tier):
     exe = pl.build.build_bin("plain")
     wd = pl.workdir("c04")
@@ -18,16 +21,21 @@ def process_level(res, tier):
         for stencil in (3, 4):
             for zoom in ((0.7, 1.0, 1.4) if tier == "thorough" else (0.7, 1.4)):
                 for fptype in (3, 1):
-                    cases.append((n, stencil, zoom, fptype))
+                    cases.append((n, stencil, zoom, fptype, 0))
+        # grid geometry: another phase-space size, an odd grid, axes shifted (the limit is a property of the physics, not of where the grid sits)
+        for geo in (1, 2, 3):
+            for stencil in (3, 4):
+                cases.append((n, stencil, 1.4, 3, geo))
     steps, td = 64, 2.0    # damping time in synchrotron periods
     fs = 45000.0
 
     def do(c):
-        n, stencil, zoom, fptype = c
+        n, stencil, zoom, fptype, geo = c
         T = 8 * td if fptype == 3 else 0.4 * td
-        a = ["-s", n, "-N", steps, "-T", T, "-n", 8, "-G", 0, "-f", fs, "-d", td / fs, "--derivation", stencil, "--FPType", fptype,
+        n += (1 if geo == 2 else 0)
+        a = GEO[geo] + ["-s", n, "-N", steps, "-T", T, "-n", 8, "-G", 0, "-f", fs, "-d", td / fs, "--derivation", stencil, "--FPType", fptype,
              "--InitialDistZoom", zoom, "--padding", 2]
-        r = pl.run(exe, a, wd, out="o_%d_%d_%g_%d.h5" % c)
+        r = pl.run(exe, a, wd, out="o_%d_%d_%g_%d_%d.h5" % c)
         doc = pl.h5(r["h5"], maxv=20000) if r["rc"] == 0 else None
         for f in (r["h5"], r["h5"] + ".cfg", r["h5"] + ".log"):
             try:
@@ -36,8 +44,9 @@ def process_level(res, tier):
                 pass
         return c, r, doc
     for c, r, doc in pl.pmap(do, cases):
-        n, stencil, zoom, fptype = c
-        case = "process n=%d stencil=%d zoom=%g fptype=%d" % c
+        n, stencil, zoom, fptype, geo = c
+        case = "process n=%d stencil=%d zoom=%g fptype=%d" % c[:4] + ((" geometry=" + "_".join(str(x) for x in GEO[geo])) if geo else "")
+        n += (1 if geo == 2 else 0)
         rp = dict(cmd=r["cmd"])
         if doc is None or "error" in doc:
             res.violate("C04/process/run-failed", case, "rc=%s %s" % (r["rc"], r["log"][-200:]), replay=rp)
@@ -45,7 +54,7 @@ def process_level(res, tier):
         bl = doc["datasets"]["/BunchLength/data"]["data"]
         es = doc["datasets"]["/EnergySpread/data"]["data"]
         res.eval(case, pl.chash(case, bl, es), trivial=False)
-        d = 12.0 / (n - 1)
+        d = (10.0 if geo == 1 else 12.0) / (n - 1)
         if fptype == 3:
             k = steps // 8
             mq, mp = sum(bl[-k:]) / k, sum(es[-k:]) / k
